@@ -414,27 +414,54 @@ Proof. unfold py_to. destruct (k <? 0); apply subl_firstn. Qed.
 Lemma zlen_firstn_le {A} k (l : list A) : 0 <= k -> zlen (firstn (Z.to_nat k) l) <= k.
 Proof. intro H. unfold zlen. rewrite firstn_length. lia. Qed.
 
-Record filtered (c : cfg) (r0 r : rminfo) (L : list node) : Prop := {
+Record filtered (c : cfg) (acc : list access) (r0 r : rminfo) (L : list node) : Prop := {
   f_sub      : subl L (r_nodes r0);
+  f_acc      : subl L (accessible (r_backup r0) acc (r_nodes r0));
+  f_len      : 0 <= r_req_nodes r0 ->
+               zlen L = Z.min (r_req_nodes r0) (zlen (accessible (r_backup r0) acc (r_nodes r0)));
   f_split    : L = r_nodes r ++ rev (r_services r) ++ rev (r_agents r);
   f_agents   : List.length (r_agents r) = count_agents (c_agents c);
   f_services : List.length (r_services r) = (if c_services c then 1 else 0)%nat;
   f_nonempty : r_nodes r <> [];
   f_bound    : 0 <= r_req_nodes r0 -> zlen L <= r_req_nodes r0;
   f_rn       : r_req_nodes r = r_req_nodes r0;
+  f_rc       : r_req_cores r = r_req_cores r0;
+  f_np       : r_nparts r = r_nparts r0;
   f_cpn      : r_cpn r = r_cpn r0;
   f_gpn      : r_gpn r = r_gpn r0 }.
 
+Lemma accessible_subl backup acc nl : subl (accessible backup acc nl) nl.
+Proof. unfold accessible. destruct (backup =? 0); [apply subl_refl | apply subl_probe]. Qed.
+
+Lemma filter_stage1 acc r0 nl :
+  (if r_backup r0 =? 0 then inr (r_nodes r0)
+   else match probe acc 0 (r_nodes r0) with
+        | [] => inl RuntimeError
+        | ok => inr ok
+        end) = inr nl ->
+  nl = accessible (r_backup r0) acc (r_nodes r0).
+Proof.
+  unfold accessible. destruct (r_backup r0 =? 0).
+  - intro H; injection H as <-. reflexivity.
+  - destruct (probe acc 0 (r_nodes r0)); [discriminate|]. intro H; injection H as <-. reflexivity.
+Qed.
+
+Lemma truncated_len {A} rn (nl : list A) :
+  0 <= rn -> zlen (if rn <? zlen nl then py_to rn nl else nl) = Z.min rn (zlen nl).
+Proof.
+  intro Hrn. destruct (rn <? zlen nl) eqn:E.
+  - apply Z.ltb_lt in E. unfold py_to. destruct (rn <? 0) eqn:E0; [apply Z.ltb_lt in E0; lia|].
+    unfold zlen in *. rewrite firstn_length. lia.
+  - apply Z.ltb_ge in E. lia.
+Qed.
+
 Lemma filter_nodes_spec c acc r0 r :
-  filter_nodes c acc r0 = inr r -> exists L, filtered c r0 r L.
+  filter_nodes c acc r0 = inr r -> exists L, filtered c acc r0 r L.
 Proof.
   unfold filter_nodes. intro H.
   destruct (if r_backup r0 =? 0 then _ else _) as [er|nl] eqn:Enl; [discriminate|].
-  assert (Hnl : subl nl (r_nodes r0)).
-  { destruct (r_backup r0 =? 0).
-    - injection Enl as <-. apply subl_refl.
-    - destruct (probe acc 0 (r_nodes r0)) eqn:Ep; [discriminate|]. injection Enl as <-.
-      rewrite <- Ep. apply subl_probe. }
+  apply filter_stage1 in Enl.
+  assert (Hnl : subl nl (r_nodes r0)) by (rewrite Enl; apply accessible_subl).
   set (rn := r_req_nodes r0) in *.
   set (nl1 := if rn <? zlen nl then py_to rn nl else nl) in *.
   destruct (pop_n (count_agents (c_agents c)) nl1 []) as [[nl2 agents]|] eqn:Ea; [|discriminate].
@@ -442,16 +469,61 @@ Proof.
   destruct (is_nil nl3) eqn:Enil; [discriminate|]. injection H as <-.
   apply pop_n_spec in Ea as [pa [Ha1 [Ha2 Ha3]]]. apply pop_n_spec in Es as [ps [Hs1 [Hs2 Hs3]]].
   simpl in Ha1, Hs1. subst agents services.
-  exists nl1. constructor; cbn [r_nodes r_agents r_services r_req_nodes r_cpn r_gpn]; try reflexivity.
-  - eapply subl_trans; [|exact Hnl]. unfold nl1. destruct (rn <? zlen nl); [apply py_to_subl | apply subl_refl].
+  assert (Hs1 : subl nl1 nl)
+    by (unfold nl1; destruct (rn <? zlen nl); [apply py_to_subl | apply subl_refl]).
+  exists nl1. constructor; cbn [r_nodes r_agents r_services r_req_nodes r_req_cores r_nparts r_cpn r_gpn]; try reflexivity.
+  - eapply subl_trans; [exact Hs1 | exact Hnl].
+  - rewrite <- Enl. exact Hs1.
+  - intro Hrn. rewrite <- Enl. apply truncated_len. assumption.
   - rewrite Ha2, Hs2, <- app_assoc. reflexivity.
   - assumption.
   - assumption.
   - destruct nl3; [discriminate | discriminate].
-  - intro Hrn. unfold nl1. destruct (rn <? zlen nl) eqn:E.
-    + unfold py_to. destruct (rn <? 0) eqn:E0; [apply Z.ltb_lt in E0; lia|].
-      apply zlen_firstn_le; assumption.
-    + apply Z.ltb_ge in E. assumption.
+  - intro Hrn. unfold nl1. rewrite (truncated_len rn nl Hrn). lia.
+Qed.
+
+(* _filter_nodes succeeds whenever enough usable nodes exist *)
+Lemma pop_n_enough k : forall nl res, (k <= List.length nl)%nat ->
+  exists nl' res', pop_n k nl res = Some (nl', res') /\ List.length nl' = (List.length nl - k)%nat.
+Proof.
+  induction k as [|k IH]; intros nl res Hk; simpl.
+  - exists nl, res. split; [reflexivity | lia].
+  - destruct nl as [|x t] eqn:En; [simpl in Hk; lia|]. rewrite <- En in *.
+    assert (Hl : List.length (removelast nl) = (List.length nl - 1)%nat).
+    { assert (Hne : nl <> []) by (rewrite En; discriminate).
+      rewrite (app_removelast_last x Hne) at 2. rewrite app_length. simpl. lia. }
+    destruct (IH (removelast nl) (res ++ [last nl (mkNode "" 0 [] [] 0 0)])) as [nl' [res' [H1 H2]]]; [lia|].
+    exists nl', res'. split; [assumption | lia].
+Qed.
+
+Lemma filter_nodes_enough c acc r0 :
+  0 <= r_req_nodes r0 ->
+  needed c <= Z.min (r_req_nodes r0) (zlen (accessible (r_backup r0) acc (r_nodes r0))) ->
+  exists r, filter_nodes c acc r0 = inr r.
+Proof.
+  intros Hrn Hen. unfold needed in Hen.
+  set (av := accessible (r_backup r0) acc (r_nodes r0)) in *.
+  assert (Hsv : 0 <= (if c_services c then 1 else 0)) by (destruct (c_services c); lia).
+  assert (Hav : 1 <= zlen av) by lia.
+  unfold filter_nodes.
+  assert (E1 : (if r_backup r0 =? 0 then inr (r_nodes r0)
+                else match probe acc 0 (r_nodes r0) with
+                     | [] => inl RuntimeError | ok => inr ok end) = inr av).
+  { unfold av, accessible in *. destruct (r_backup r0 =? 0); [reflexivity|].
+    destruct (probe acc 0 (r_nodes r0)); [unfold zlen in Hav; simpl in Hav; lia | reflexivity]. }
+  rewrite E1.
+  set (rn := r_req_nodes r0) in *.
+  pose proof (truncated_len rn av Hrn) as Hl.
+  set (nl1 := if rn <? zlen av then py_to rn av else av) in *.
+  set (na := count_agents (c_agents c)) in *.
+  set (ns := if c_services c then 1%nat else 0%nat).
+  assert (Hns : Z.of_nat ns = if c_services c then 1 else 0) by (unfold ns; destruct (c_services c); reflexivity).
+  destruct (pop_n_enough na nl1 []) as [nl2 [ag [P1 L1]]]; [unfold zlen in *; lia|].
+  rewrite P1.
+  destruct (pop_n_enough ns nl2 []) as [nl3 [sv [P2 L2]]]; [unfold zlen in *; lia|].
+  rewrite P2.
+  destruct nl3 as [|x t]; [simpl in L2; unfold zlen in *; lia|].
+  simpl. eexists. reflexivity.
 Qed.
 
 (* ============================================ sizes and blocked slots *)
@@ -581,6 +653,7 @@ Lemma init_decompose c e acc r :
   init_from_scratch c e acc = inr r -> exists st nl' L, scratch_facts c e r st nl' L.
 Proof.
   unfold init_from_scratch. intro H.
+  destruct (pre_filter c e) as [er0|r0] eqn:Ep; [discriminate|]. unfold pre_filter in Ep.
   destruct (rm_init c e) as [er|st] eqn:Est; [discriminate|].
   set (nl := get_node_list (s_nodes st) (s_gpn st) (c_lfs c) (c_mem c)) in *.
   destruct (if is_nil (c_bcores c) && is_nil (c_bgpus c) then _ else _) as [er|[[cpn gpn] nl']] eqn:Eb;
@@ -595,7 +668,7 @@ Proof.
       injection Eb as <- <- <-. repeat split; reflexivity. }
   destruct Hb as [Hb [-> ->]].
   destruct (derive_requested _ _ _ _ _) as [er|rn] eqn:Er; [discriminate|].
-  destruct (zlen nl' <? rn); [discriminate|].
+  destruct (zlen nl' <? rn); [discriminate|]. injection Ep as <-.
   apply filter_nodes_spec in H as [L F]. destruct F. cbn [r_nodes r_req_nodes r_cpn r_gpn] in *.
   exists st, nl', L. constructor; try assumption.
   - rewrite f_rn0. assumption.
@@ -843,6 +916,53 @@ Proof.
   rewrite (sf_rn _ _ _ _ _ _ F); [assumption | rewrite Hs; assumption].
 Qed.
 
+(* _filter_nodes on ANY RMInfo (node names arbitrary, also repeated; any probe
+   outcome per position): what it offers and reserves is, up to order, a
+   sub-sequence of the usable nodes of exactly min(requested, usable) length *)
+Theorem filter_nodes_offers c acc r0 r :
+  filter_nodes c acc r0 = inr r ->
+  exists L, Permutation (all_nodes r) L
+    /\ subl L (accessible (r_backup r0) acc (r_nodes r0))
+    /\ (0 <= r_req_nodes r0 ->
+        zlen L = Z.min (r_req_nodes r0) (zlen (accessible (r_backup r0) acc (r_nodes r0)))).
+Proof.
+  intro H. apply filter_nodes_spec in H as [L F]. destruct F. exists L.
+  split; [apply all_nodes_perm; assumption|]. split; assumption.
+Qed.
+
+(* 8: the usable nodes are offered up to the requested number, and start-up
+   fails only when they do not suffice *)
+Theorem offers_accessible c e acc r0 r :
+  pre_filter c e = inr r0 -> init_from_scratch c e acc = inr r ->
+  (forall n, In n (all_nodes r) -> In n (accessible (r_backup r0) acc (r_nodes r0)))
+  /\ (0 <= r_req_nodes r ->
+      zlen (all_nodes r) = Z.min (r_req_nodes r) (zlen (accessible (r_backup r0) acc (r_nodes r0)))).
+Proof.
+  intros Hp H. unfold init_from_scratch in H. rewrite Hp in H.
+  apply filter_nodes_spec in H as [L F]. destruct F.
+  pose proof (all_nodes_perm r L f_split0) as Hperm. split.
+  - intros n Hn. eapply subl_In; [exact f_acc0|]. eapply Permutation_in; eassumption.
+  - intro Hrn. rewrite f_rn0 in *. rewrite <- (f_len0 Hrn). unfold zlen.
+    rewrite (Permutation_length Hperm). reflexivity.
+Qed.
+
+Theorem startup_fails_only_if_short c e acc r0 :
+  pre_filter c e = inr r0 -> scalars_ok r0 = true -> 0 <= r_req_nodes r0 ->
+  needed c <= Z.min (r_req_nodes r0) (zlen (accessible (r_backup r0) acc (r_nodes r0))) ->
+  exists r, rm_construct c e acc = inr r.
+Proof.
+  intros Hp Hs Hrn Hen.
+  destruct (filter_nodes_enough c acc r0 Hrn Hen) as [r Hr]. exists r.
+  unfold rm_construct, init_from_scratch. rewrite Hp, Hr.
+  apply filter_nodes_spec in Hr as [L F]. destruct F.
+  unfold scalars_ok in Hs. apply andb_true_iff in Hs as [Hs H3]. apply andb_true_iff in Hs as [H1 H2].
+  assert (Hn : needed c >= 1).
+  { unfold needed. destruct (c_services c); lia. }
+  unfold verify. rewrite f_rn0, f_rc0, f_cpn0, f_np0, H1, H2, H3.
+  replace (r_req_nodes r0 =? 0) with false by (symmetry; apply Z.eqb_neq; lia).
+  destruct (r_nodes r); [contradiction | reflexivity].
+Qed.
+
 (* ============================================= registry hand-over (7) *)
 Lemma opt_map_slots l : opt_map value_slot (map slot_value l) = Some l.
 Proof. induction l as [|s l IH]; simpl; [reflexivity|]. rewrite IH. destruct s; reflexivity. Qed.
@@ -960,4 +1080,26 @@ Theorem oracle_ok_same c e acc r :
   rm_construct c e acc = inr r -> ok_same r (Some (rm_from_registry (as_dict r))) = true.
 Proof.
   intro H. rewrite (registry_round_trip _ _ _ _ H). simpl. apply rminfo_eqb_refl.
+Qed.
+
+Lemma same_node_refl n : same_node n n = true.
+Proof. unfold same_node. rewrite Z.eqb_refl, String.eqb_refl. reflexivity. Qed.
+
+Theorem oracle_ok_accessible c e acc : ok_accessible c e acc (rm_construct c e acc) = true.
+Proof.
+  unfold ok_accessible. destruct (pre_filter c e) as [|r0] eqn:Ep; [reflexivity|].
+  destruct (rm_construct c e acc) as [er|r] eqn:Ec.
+  - apply negb_true_iff. destruct (scalars_ok r0) eqn:Es; [|reflexivity].
+    destruct (0 <=? r_req_nodes r0) eqn:Er; [|reflexivity].
+    destruct (needed c <=? _) eqn:En; [|reflexivity]. exfalso.
+    apply Z.leb_le in Er. apply Z.leb_le in En.
+    destruct (startup_fails_only_if_short c e acc r0 Ep Es Er En) as [r Hr]. congruence.
+  - pose proof (construct_scratch _ _ _ _ Ec) as Hi.
+    destruct (offers_accessible _ _ _ _ _ Ep Hi) as [A1 A2].
+    repeat (apply andb_true_iff; split).
+    + apply forallb_forall. intros n Hn. apply existsb_exists. exists n.
+      split; [apply A1; assumption | apply same_node_refl].
+    + apply nodupZ_NoDup. eapply indices_unique; eassumption.
+    + destruct (r_req_nodes r <? 0) eqn:E; [reflexivity|]. apply Z.ltb_ge in E.
+      simpl. apply Z.eqb_eq. apply A2. assumption.
 Qed.
